@@ -65,7 +65,7 @@ func (s *Server) healthCheckLoop() {
 			s.healthCheck()
 			t.Reset(interval)
 		case <-s.Closed:
-			break
+			return
 		}
 	}
 }
